@@ -33,6 +33,15 @@
 // shared by 2..6 roots that are compiled for the first time by different
 // goroutines.
 //
+// SCALAR RULES (scalars.go; all streams): the texts carry scalar members whose
+// numeric / string rules run over the spellings of bounds (trailing fraction
+// zeros, long fractions, negative zero, integers and decimals, lengths on the
+// bound), and the documents include PROBE documents: the example with scalar
+// leaves replaced by tokens on and around these bounds, so that every branch of
+// the comparisons against the shared constraint objects is executed by several
+// goroutines at once.  The main stream has SCALAR rounds (numRoundBase) over a
+// family of its own (numfamily.go).
+//
 // A third stream, "broken" (broken.go, its own child process): shared type and
 // enum-rule objects that are INVALID in a way only the check of a root finds
 // (next to sound ones), big enough for the check of ONE type to take a while,
@@ -163,14 +172,14 @@ type shared struct {
 // spec draws one bit per round (all objects of that spec in the round, shared
 // or private, and those of the sequential oracle, are created with it).
 type optEnv struct {
-	typeOpt map[int]bool // index into c11.Schemas -> created with KeysAreOptionalByDefault()
+	typeOpt map[int]bool // index into specs() -> created with KeysAreOptionalByDefault()
 }
 
 var noOpts = &optEnv{}
 
 func drawOptEnv(ro *rand.Rand, p float64) *optEnv {
 	e := &optEnv{typeOpt: map[int]bool{}}
-	for i, sp := range c11.Schemas {
+	for i, sp := range specs() {
 		if sp.IsType && ro.Float64() < p {
 			e.typeOpt[i] = true
 		}
@@ -192,7 +201,7 @@ func (e *optEnv) key(spec c11.SchemaSpec) string {
 			if e.typeOpt[tr.Spec] {
 				sb = append(sb, fmt.Sprint(tr.Spec))
 			}
-			walk(c11.Schemas[tr.Spec])
+			walk(specs()[tr.Spec])
 		}
 	}
 	walk(spec)
@@ -203,9 +212,9 @@ func newTypeObject(kind, spec int, env *optEnv) interface{} {
 	if kind == c11.KRegex {
 		return regex.New("rx", c11.Regexes[spec])
 	}
-	s := jschema.New(c11.Schemas[spec].ID, c11.Schemas[spec].Text, c11.SchemaOptions(env.typeOpt[spec])...)
+	s := jschema.New(specs()[spec].ID, specs()[spec].Text, c11.SchemaOptions(env.typeOpt[spec])...)
 	// the type's own set-up (its rules and types are private fresh objects)
-	setup(s, c11.Schemas[spec], nil, 0, nil, env)
+	setup(s, specs()[spec], nil, 0, nil, env)
 	return s
 }
 
@@ -251,7 +260,7 @@ func allOfInvolved(spec c11.SchemaSpec) bool {
 		return true
 	}
 	for _, tr := range spec.Types {
-		if tr.Kind == c11.KSchema && c11.Schemas[tr.Spec].UsesAllOf() {
+		if tr.Kind == c11.KSchema && specs()[tr.Spec].UsesAllOf() {
 			return true
 		}
 	}
@@ -269,6 +278,9 @@ type want struct {
 // base documents; for a root of the keys family (c11/pool_keys.go) its full
 // document, every document lacking one key of it, and a few others.
 func specDocs(spec c11.SchemaSpec) []string {
+	if d, ok := numDocs[spec.ID]; ok {
+		return d.docs
+	}
 	if !spec.Keys {
 		return c11.Docs
 	}
@@ -287,12 +299,12 @@ type oracles struct {
 }
 
 func (o *oracles) of(ri int, rootOpt bool, env *optEnv) want {
-	k := fmt.Sprintf("%d/%v/%s", ri, rootOpt, env.key(c11.Schemas[ri]))
+	k := fmt.Sprintf("%d/%v/%s", ri, rootOpt, env.key(specs()[ri]))
 	o.mu.Lock()
 	defer o.mu.Unlock()
 	w, ok := o.m[k]
 	if !ok {
-		w = oracle(c11.Schemas[ri], rootOpt, env)
+		w = oracle(specs()[ri], rootOpt, env)
 		o.m[k] = w
 	}
 	return w
@@ -356,6 +368,8 @@ type target struct {
 	docs     []string // documents for Validate
 	w        want
 
+	probeFrom int // docs[probeFrom:] are the probe documents of scalars.go (0: none)
+
 	firstCompile bool // the first call of every goroutine is one that compiles (Check / Validate / Example / GetAST)
 }
 
@@ -364,7 +378,7 @@ func specTarget(spec c11.SchemaSpec, rootOpt bool, env *optEnv, w want) target {
 	if rootOpt {
 		setup = "the root is created with jschema.KeysAreOptionalByDefault(); " + setup
 	}
-	return target{id: spec.ID, text: spec.Text, setup: setup, docs: specDocs(spec), w: w}
+	return target{id: spec.ID, text: spec.Text, setup: setup, docs: specDocs(spec), probeFrom: numDocs[spec.ID].probeFrom, w: w}
 }
 
 // hammer issues n random operations on s and compares with t.w.
@@ -385,6 +399,9 @@ func hammer(col *collector, r *rand.Rand, s *jschema.Schema, t target, n int, wh
 				Impl: got, Model: "sequential run on fresh objects: " + w.ops[k]})
 		}
 		col.stat("op_" + opName[code])
+		if code == opValidate && t.probeFrom > 0 && doc >= t.probeFrom {
+			col.stat("op_Validate_probe_document_" + errClass(got))
+		}
 		if code == opAST && idents != nil && id != ([2]uintptr{}) {
 			select {
 			case idents <- id:
@@ -428,10 +445,10 @@ func describeSetup(spec c11.SchemaSpec, env *optEnv) string {
 			sb = append(sb, fmt.Sprintf("AddType(%q, regex %q)", tr.Name, c11.Regexes[tr.Spec]))
 		default:
 			own := ""
-			if ts := c11.Schemas[tr.Spec]; len(ts.Types)+len(ts.Rules) > 0 {
+			if ts := specs()[tr.Spec]; len(ts.Types)+len(ts.Rules) > 0 {
 				own = " [the type's own set-up, fresh objects: " + describeSetup(ts, env) + "]"
 			}
-			sb = append(sb, fmt.Sprintf("AddType(%q, schema %q%s%s)", tr.Name, c11.Schemas[tr.Spec].Text, c11.OptText(env.typeOpt[tr.Spec]), own))
+			sb = append(sb, fmt.Sprintf("AddType(%q, schema %q%s%s)", tr.Name, specs()[tr.Spec].Text, c11.OptText(env.typeOpt[tr.Spec]), own))
 		}
 	}
 	return strings.Join(sb, ", ")
@@ -446,13 +463,28 @@ func describeSetup(spec c11.SchemaSpec, env *optEnv) string {
 // type spec draws the option with probability 1/5.)
 const keysRoundBase = 100000
 
-func isKeysRound(round int) bool { return round >= keysRoundBase }
+func isKeysRound(round int) bool { return round >= keysRoundBase && round < numRoundBase }
 
-// mainRounds: rounds of the two number ranges per run of the main stream.
-func mainRounds() (plain, keys int) { return vh.Pick(300, 6000), vh.Pick(100, 2000) }
+// numRoundBase: rounds with numbers >= numRoundBase are SCALAR rounds: the
+// shared root and the other roots are roots of the scalar family (numfamily.go)
+// over ONE shared type text whose members carry numeric / string rules from
+// scalars.go; the documents are the root's example, its usual mutations and the
+// probe documents around the bounds of the rules.
+const numRoundBase = 200000
+
+func isNumRound(round int) bool { return round >= numRoundBase }
+
+// mainRounds: rounds of the three number ranges per run of the main stream.
+func mainRounds() (plain, keys, nums int) {
+	return vh.Pick(300, 6000), vh.Pick(100, 2000), vh.Pick(120, 2400)
+}
 
 func roundID(j int) int {
-	if plain, _ := mainRounds(); j >= plain {
+	plain, keys, _ := mainRounds()
+	switch {
+	case j >= plain+keys:
+		return numRoundBase + j - plain - keys
+	case j >= plain:
 		return keysRoundBase + j - plain
 	}
 	return j
@@ -473,7 +505,7 @@ func pickSpecs(r *rand.Rand, known bool, checkOK func(int) bool) (int, []int) {
 	roots := c11.Roots()
 	var pool []int
 	for _, ri := range roots {
-		if allOfInvolved(c11.Schemas[ri]) == known {
+		if allOfInvolved(specs()[ri]) == known {
 			pool = append(pool, ri)
 		}
 	}
@@ -494,15 +526,15 @@ func pickSpecs(r *rand.Rand, known bool, checkOK func(int) bool) (int, []int) {
 		case x < 8: // a root that uses one of the same type / rule specs
 			var cands []int
 			for _, ri := range pool {
-				for _, a := range c11.Schemas[ri].Types {
-					for _, b := range c11.Schemas[s].Types {
+				for _, a := range specs()[ri].Types {
+					for _, b := range specs()[s].Types {
 						if a.Kind == b.Kind && a.Spec == b.Spec && a.Kind != c11.KSelf {
 							cands = append(cands, ri)
 						}
 					}
 				}
-				for _, a := range c11.Schemas[ri].Rules {
-					for _, b := range c11.Schemas[s].Rules {
+				for _, a := range specs()[ri].Rules {
+					for _, b := range specs()[s].Rules {
 						if a.Enum == b.Enum {
 							cands = append(cands, ri)
 						}
@@ -529,7 +561,9 @@ func runRound(col *collector, round int, known bool, orc *oracles, rxWants map[i
 	var sIdx int
 	var others []int
 	pOptRoot, pOptType := 0.2, 0.2
-	if isKeysRound(round) {
+	if isNumRound(round) {
+		sIdx, others = pickNumSpecs(r)
+	} else if isKeysRound(round) {
 		sIdx, others = pickKeySpecs(r)
 		pOptRoot, pOptType = 0.5, 0.25
 	} else {
@@ -541,13 +575,13 @@ func runRound(col *collector, round int, known bool, orc *oracles, rxWants map[i
 	for j := range otherOpt {
 		otherOpt[j] = ro.Float64() < pOptRoot
 	}
-	spec := c11.Schemas[sIdx]
+	spec := specs()[sIdx]
 	sWant := orc.of(sIdx, sOpt, env)
 	// the other roots belong to the scenario: what they do to the shared type objects is what the shared root must not see
 	var otherDesc []string
 	for j, oi := range others {
 		for k := j; k < len(otherOpt) && (k == j || G >= 8); k += len(others) {
-			otherDesc = append(otherDesc, fmt.Sprintf("%s = %q%s", c11.Schemas[oi].ID, c11.Schemas[oi].Text, c11.OptText(otherOpt[k])))
+			otherDesc = append(otherDesc, fmt.Sprintf("%s = %q%s", specs()[oi].ID, specs()[oi].Text, c11.OptText(otherOpt[k])))
 		}
 	}
 	where := fmt.Sprintf("round %d (vh.NewRand(%d); option bits vh.NewRand(%d)), %d goroutines on shared root, roots built / compiled / used meanwhile over the same type and rule objects: %s", round,
@@ -557,7 +591,7 @@ func runRound(col *collector, round int, known bool, orc *oracles, rxWants map[i
 	sh := &shared{types: map[[2]int]interface{}{}, enums: map[int]*enum.Enum{}}
 	nShared := 0
 	for _, ri := range append([]int{sIdx}, others...) {
-		sp := c11.Schemas[ri]
+		sp := specs()[ri]
 		if allOfInvolved(sp) && !known {
 			continue // private type objects for these (K-C12-allof otherwise)
 		}
@@ -617,7 +651,7 @@ func runRound(col *collector, round int, known bool, orc *oracles, rxWants map[i
 		go func() {
 			defer wg.Done()
 			<-start
-			osp := c11.Schemas[oi]
+			osp := specs()[oi]
 			o := jschema.New(osp.ID, osp.Text, c11.SchemaOptions(oOpt)...)
 			ow := fmt.Sprintf("round %d (option bits vh.NewRand(%d)), concurrently built root sharing type/rule objects with %s = %q%s (set-up %s) and with %s", round, salt+int64(round)*1000+500,
 				spec.ID, spec.Text, c11.OptText(sOpt), describeSetup(spec, env), strings.Join(otherDesc, "; "))
@@ -713,9 +747,9 @@ func runRound(col *collector, round int, known bool, orc *oracles, rxWants map[i
 	// option statistics: a strict shared root next to a lenient root that was given one of its type objects (and the reverse)
 	mixed := false
 	for j := 0; j < nOther; j++ {
-		if otherOpt[j] != sOpt && pShare(spec) > 0 && pShare(c11.Schemas[others[j%len(others)]]) > 0 {
+		if otherOpt[j] != sOpt && pShare(spec) > 0 && pShare(specs()[others[j%len(others)]]) > 0 {
 			for _, a := range spec.Types {
-				for _, b := range c11.Schemas[others[j%len(others)]].Types {
+				for _, b := range specs()[others[j%len(others)]].Types {
 					if a.Kind == c11.KSchema && b.Kind == c11.KSchema && a.Spec == b.Spec {
 						mixed = true
 					}
@@ -731,6 +765,9 @@ func runRound(col *collector, round int, known bool, orc *oracles, rxWants map[i
 	if isKeysRound(round) {
 		col.res.Stats["keys_rounds"]++
 	}
+	if isNumRound(round) {
+		col.res.Stats["scalar_rounds"]++
+	}
 	if sOpt {
 		col.res.Stats["opt_shared_root_created_with_KeysAreOptionalByDefault"]++
 	}
@@ -743,7 +780,7 @@ func runRound(col *collector, round int, known bool, orc *oracles, rxWants map[i
 func specIDs(is []int) []string {
 	var out []string
 	for _, i := range is {
-		out = append(out, c11.Schemas[i].ID)
+		out = append(out, specs()[i].ID)
 	}
 	return out
 }
@@ -779,8 +816,8 @@ func child(stream string, onlyRound, repeat int) {
 	for i := range c11.Regexes {
 		rxWants[i] = regexOracle(i)
 	}
-	plainRounds, keysRounds := mainRounds()
-	rounds := plainRounds + keysRounds
+	plainRounds, keysRounds, numRounds := mainRounds()
+	rounds := plainRounds + keysRounds + numRounds
 	if known {
 		rounds = vh.Pick(40, 400)
 	}
@@ -958,7 +995,17 @@ func Run(args []string) {
 			"another JSON type; additionalProperties naming a missing type; required self reference), the same objects added to 2..6 roots, 4 of "+
 			"5 set up before the start, every goroutine's first call is Check / Validate / Example / GetAST, all released together, then random "+
 			"mixes; oracle = each root over fresh objects sequentially (error code, position, file), documents from the example of the root over "+
-			"the sound variants of its types. Non-trivial there = a defective type object of >= 30 members added to >= 2 roots of the round")
+			"the sound variants of its types. Non-trivial there = a defective type object of >= 30 members added to >= 2 roots of the round. "+
+			"SCALAR RULES in all three streams (scalars.go): members / scalar types / or alternatives / array elements with min / max (with and "+
+			"without exclusiveMinimum / exclusiveMaximum; both bounds equal, sharing the integer part, apart), const, inline enums of numerals, "+
+			"precision (type decimal), minLength / maxLength / both / const / enum / regex on strings; numerals spelled as integers, with "+
+			"fractions of 1..25 digits, trailing fraction zeros (2.50, 1.0), zero and negative zero, negative, integer parts of 1..21 digits; "+
+			"examples next to a bound (sound by exact arithmetic; stream broken: also defect members whose example is on the wrong side by a "+
+			"fraction); PROBE documents = the example with scalar leaves replaced by tokens on and around the bounds of the member's rules (same "+
+			"integer part with a longer / shorter / differing fraction just above and below, the bound respelled with trailing zeros or an "+
+			"exponent, neighbouring integers, other sign, zeros; strings one shorter / on / one longer than a length bound, multi-byte and "+
+			"escaped), 10 per root (stream broken 4); main stream: SCALAR rounds (numbers 200000+k, 120 quick / 2400 thorough) over a family of "+
+			"20 type texts x 5 root forms (numfamily.go), 14 probe documents per root")
 	if racekit.Enabled {
 		rep.Extra["race_detector"] = "on"
 	} else {
